@@ -278,6 +278,14 @@ def select(items, idx):
     if idx.lo < 0:
         idx = ite(idx < 0, idx + n, idx)
         idx = lift(idx)
+    if idx.prov is not None and all(type(v) is int for v in items):
+        # idx is itself inner[j] for a concrete table: items[inner[j]] is one look-up indexed by j (the identity when the tables undo each other)
+        inner, j, jlo, jhi = idx.prov
+        if all(0 <= inner[k] < n for k in range(jlo, jhi + 1)):
+            composed = [items[inner[k]] if jlo <= k <= jhi else 0 for k in range(len(inner))]
+            if composed[jlo:jhi + 1] == list(range(jlo, jhi + 1)):
+                return j
+            return select(composed, j)
     lo, hi = max(idx.lo, 0), min(idx.hi, n - 1)
     lin = _linear_table(items)
     if lin is not None and lo == 0:
